@@ -14,7 +14,11 @@ package main
 import (
 	"encoding/json"
 	"fmt"
+	"math"
 	"math/big"
+	"math/rand"
+	"os"
+	"strconv"
 	"strings"
 
 	"github.com/antonmedv/expr/ast"
@@ -69,6 +73,10 @@ type LexMeta struct {
 	Mant   []string `json:"mant,omitempty"`
 	Exp10  int      `json:"exp10,omitempty"`
 	Toks   []LexTok `json:"toks,omitempty"`
+	Prefix string   `json:"prefix,omitempty"`
+	Upper  string   `json:"upper,omitempty"`
+	Group  int      `json:"group,omitempty"`
+	Fmt    string   `json:"fmt,omitempty"`
 }
 
 type LexCase struct {
@@ -226,6 +234,8 @@ func (r *replayer) lexCase(c LexCase) {
 	case "layout":
 		r.expectToks(c, text, c.Meta.Toks)
 		r.sum.Nontrivial++
+	case "scheme":
+		r.schemeCase(c)
 	default:
 		// the machine's outcome
 		toks, lerr, g := lexGuarded(text)
@@ -274,4 +284,93 @@ func (r *replayer) lexCase(c LexCase) {
 	if len(r.sum.Samples) < r.maxSamp {
 		r.sample(c)
 	}
+}
+
+// group inserts "_" every n digits counted from the right.
+func groupDigits(d string, n int) string {
+	if n <= 0 || len(d) <= n {
+		return d
+	}
+	var parts []string
+	for len(d) > n {
+		parts = append([]string{d[len(d)-n:]}, parts...)
+		d = d[:len(d)-n]
+	}
+	parts = append([]string{d}, parts...)
+	return strings.Join(parts, "_")
+}
+
+// schemeCase: magnitudes TLC cannot hold.  The scheme (class, base, prefix,
+// case, separators, float format) comes from the specification; the values are
+// extrema and seeded random ones; the expected value is the value drawn.
+func (r *replayer) schemeCase(c LexCase) {
+	m := c.Meta
+	seed := int64(1)
+	fmt.Sscan(os.Getenv("VERIF_SEED"), &seed)
+	rng := rand.New(rand.NewSource(seed*7919 + int64(len(m.Prefix)) + int64(m.Group)))
+	if m.Class == "int" {
+		vals := []uint64{0, 1, 9, 10, 255, 1<<31 - 1, 1 << 31, 1<<32 - 1, 1 << 32, 1<<53 + 1, 1<<63 - 1, 1000000000000000000,
+			0xe, 0xeeee, 0x1e1e1e1e, 0xeeeeeeeeeeeeee, 0xbeef, 0xfeedface, 0x7fffffffffffffff, 0xabcdef, 0xe0e0e0}
+		for i := 0; i < 400; i++ {
+			vals = append(vals, rng.Uint64()>>(1+uint(rng.Intn(62))))
+		}
+		for _, v := range vals {
+			d := strconv.FormatUint(v, m.Base)
+			switch m.Upper {
+			case "upper":
+				d = strings.ToUpper(d)
+			case "mixed":
+				b := []byte(d)
+				for i := range b {
+					if i%2 == 0 {
+						b[i] = strings.ToUpper(string(b[i]))[0]
+					}
+				}
+				d = string(b)
+			}
+			text := m.Prefix + groupDigits(d, m.Group)
+			tree, perr, g := parseGuarded(text)
+			r.sum.Executions++
+			if g != nil {
+				continue
+			}
+			if perr != nil {
+				r.fail(Failure{Why: "number-rejected", Src: text, Mode: c.Fam, Got: &Got{Stage: "parse", Err: perr.Error()}, Tags: []string{"class=int"}})
+				continue
+			}
+			if n, ok := tree.Node.(*ast.IntegerNode); !ok || uint64(n.Value) != v {
+				r.fail(Failure{Why: "integer-literal-value", Src: text, Mode: c.Fam, Got: &Got{Stage: "parse", Err: fmt.Sprintf("%#v", tree.Node)},
+					Tags: []string{fmt.Sprintf("want %d", v)}})
+			}
+		}
+	} else {
+		vals := []float64{0, 1, 0.1, 0.5, 1.5, 1e22, 1e23, 123456789.125, math.MaxFloat64, math.SmallestNonzeroFloat64, 1e-320,
+			2.2250738585072014e-308, 9007199254740993, 1 << 62, 3.141592653589793, 1e308, 5e-324, 0.000001, 1e21, 1e20}
+		for i := 0; i < 400; i++ {
+			f := math.Float64frombits(rng.Uint64() >> 1)
+			if !math.IsNaN(f) && !math.IsInf(f, 0) {
+				vals = append(vals, f)
+			}
+		}
+		for _, v := range vals {
+			text := strconv.FormatFloat(v, m.Fmt[0], -1, 64)
+			if !strings.ContainsAny(text, ".eE") {
+				text += ".0" // a float spelling needs a point or an exponent
+			}
+			tree, perr, g := parseGuarded(text)
+			r.sum.Executions++
+			if g != nil {
+				continue
+			}
+			if perr != nil {
+				r.fail(Failure{Why: "number-rejected", Src: text, Mode: c.Fam, Got: &Got{Stage: "parse", Err: perr.Error()}, Tags: []string{"class=float"}})
+				continue
+			}
+			if n, ok := tree.Node.(*ast.FloatNode); !ok || n.Value != v {
+				r.fail(Failure{Why: "float-literal-value", Src: text, Mode: c.Fam, Got: &Got{Stage: "parse", Err: fmt.Sprintf("%#v", tree.Node)},
+					Tags: []string{fmt.Sprintf("want %v", v)}})
+			}
+		}
+	}
+	r.sum.Nontrivial++
 }
